@@ -2,6 +2,7 @@ package main
 
 import (
 	"bytes"
+	"strings"
 	"fmt"
 
 	pipeline "github.com/buildkite/go-pipeline"
@@ -234,6 +235,24 @@ func c14different(g *docgen, c c14case) []c14case {
 			return false
 		}
 		p.l[0], p.l[1] = p.l[1], p.l[0]
+		return true
+	})
+	// a plugin named x and one named x-buildkite-plugin are different plugins
+	add(func(n *c14case) bool {
+		p := n.doc.get("plugins")
+		if p == nil || p.kind != 'l' || len(p.l) == 0 || p.l[0].kind != 'm' || len(p.l[0].m) != 1 {
+			return false
+		}
+		src := p.l[0].m[0].k
+		name, ref, _ := strings.Cut(src, "#")
+		if strings.ContainsAny(name, ":\\") || strings.HasPrefix(name, ".") || strings.HasPrefix(name, "/") || strings.Count(name, "/") > 1 {
+			return false
+		}
+		ns := name + "-buildkite-plugin"
+		if ref != "" {
+			ns += "#" + ref
+		}
+		p.l[0].m[0].k = ns
 		return true
 	})
 	add(func(n *c14case) bool {
